@@ -305,6 +305,24 @@ fn trace<T: Serialize + ?Sized>(v: &T, fail_at: usize) -> (Result<(), SerErr>, V
 // ---------------------------------------------------------------------------------------------
 // payload family with hand-written impls
 
+/// Zero-sized payloads whose serialisation is *not* the bare unit call.
+#[derive(Debug, Clone, PartialEq)]
+pub struct Marker;
+impl Serialize for Marker {
+    fn serialize<S: Serializer>(&self, s: S) -> Result<S::Ok, S::Error> {
+        s.serialize_unit_struct("Marker")
+    }
+}
+#[derive(Debug, Clone, PartialEq)]
+pub struct ZTagged;
+impl Serialize for ZTagged {
+    fn serialize<S: Serializer>(&self, s: S) -> Result<S::Ok, S::Error> {
+        let mut st = s.serialize_struct("ZTagged", 1)?;
+        st.serialize_field("kind", &7u8)?;
+        st.end()
+    }
+}
+
 #[derive(Debug, Clone, PartialEq)]
 pub struct Pt {
     x: i32,
@@ -825,6 +843,10 @@ pub fn run(seed: u64, n: usize, part: &str, st: &mut SdStats) -> Vec<Viol> {
                 &mut out,
             );
             go(ser_case("()", &(), st), &mut out);
+            go(ser_case("Marker (zero-sized unit struct)", &Marker, st), &mut out);
+            go(ser_case("ZTagged (zero-sized, serialises as a struct)", &ZTagged, st), &mut out);
+            go(ser_case("[u8; 0]", &[0u8; 0], st), &mut out);
+            go(ser_case("PhantomData<u32>", &std::marker::PhantomData::<u32>, st), &mut out);
             go(ser_case("f64", &(rng.next() as f64 / 7.0), st), &mut out);
         }
         if part == "ser" {
